@@ -1,0 +1,9 @@
+//go:build verif
+
+// Contracts for the deductive verifier in /verif (comment-only file; see /verif/DESIGN.md).
+
+package tlscerts
+
+// Built by (empty) contract where the service manager is verified.
+//@ func (*Config).NewStore
+//@   noinline
